@@ -173,9 +173,18 @@ fn run_case(case: &Value) -> Value {
                     a2l.write(&path, Some("written by the verification harness")).map_err(|e| e.to_string())?;
                     let text = std::fs::read_to_string(&path).map_err(|e| e.to_string())?;
                     let (re, log) = a2lfile::load(&path, a2ml.clone(), strict).map_err(|e| e.to_string())?;
-                    Ok::<_, String>((text.starts_with("/* written by the verification harness */"), re == a2l, log.len()))
+                    // ... and writing what was loaded with the same banner gives the same file again: equal up to the blanks
+                    // between the banner and the first token the first time (the writer puts a blank in front of a first
+                    // token that stood on line 1), byte for byte from then on
+                    let path2 = dir.join("written2.a2l");
+                    re.write(&path2, Some("written by the verification harness")).map_err(|e| e.to_string())?;
+                    let text2 = std::fs::read_to_string(&path2).map_err(|e| e.to_string())?;
+                    let (re2, _) = a2lfile::load(&path2, a2ml.clone(), strict).map_err(|e| e.to_string())?;
+                    re2.write(&path2, Some("written by the verification harness")).map_err(|e| e.to_string())?;
+                    let text3 = std::fs::read_to_string(&path2).map_err(|e| e.to_string())?;
+                    Ok::<_, String>((text.starts_with("/* written by the verification harness */"), re == a2l, log.len(), text3 == text2 && text2.trim_start_matches("/* written by the verification harness */").trim_start() == text.trim_start_matches("/* written by the verification harness */").trim_start()))
                 }) {
-                    Ok(Ok((banner, eq, nlog))) => json!({"ok": true, "banner_first": banner, "model_eq": eq, "diags": nlog}),
+                    Ok(Ok((banner, eq, nlog, fix))) => json!({"ok": true, "banner_first": banner, "model_eq": eq, "diags": nlog, "text_fix": fix}),
                     Ok(Err(e)) => json!({"ok": false, "error": e}),
                     Err(p) => json!({"ok": false, "panic": p}),
                 };
